@@ -20,6 +20,12 @@ def upload_requests(t, rng):
     for fn in ("../../evil", "/tmp/rws-evil2", existing.lstrip("/"), "plain.txt"):
         mb = reqgen.multipart_body([("note", "hi")], files=[("file", fn, "application/octet-stream", b"FILE-PART-CONTENT" * 10)])
         out.append(("POST", "multipart-file-part", ("POST /form-multipart-enctype-post-method HTTP/1.1\r\n%sContent-Type: multipart/form-data; boundary=----WebKitFormBoundaryAbC123xyz\r\nContent-Length: %d\r\n\r\n" % (H, len(mb))).encode() + mb))
+    # range-shaped reads of large and small files, valid and refused, single and multi-part, through links as well
+    for f in [x for x in files if len(t.files[x]) > 65536][:4] + [x for x in files if 100 < len(t.files[x]) < 5000][:1] + sorted(k for k in t.links if os.path.isfile(t.abs(k)))[:2]:
+        L = len(t.files[f]) if f in t.files else 1000
+        for rv in ("bytes=0-99", "bytes=0-99, 200-299", "bytes=0-99, %d-%d" % (L + 100, L), "bytes=%d-%d, 0-9" % (L + 5, L + 9), "bytes=0-9, x-y", "bytes=0-9,,", "bytes=-5, 0-0", "bytes=5-, 99999999999-", "bytes=0-0,1-1,2-2,%d-" % (L + 1)):
+            out.append(("GET", "range-shaped", ("GET %s HTTP/1.1\r\n%sRange: %s\r\n\r\n" % (f, H, rv)).encode()))
+            out.append(("HEAD", "range-shaped", ("HEAD %s HTTP/1.1\r\n%sRange: %s\r\n\r\n" % (f, H, rv)).encode()))
     out.append(("POST", "urlencoded", ("POST /form-url-encoded-enctype-post-method HTTP/1.1\r\n%sContent-Type: application/x-www-form-urlencoded\r\nContent-Length: 27\r\n\r\nfile=../evil&content=abcdef" % H).encode()))
     return out
 
@@ -39,9 +45,60 @@ def run(c):
     # "created on first use" only shows when the file is missing)
     for variant, (ri, r4) in enumerate(((True, True), (False, False))):
         t = treegen.generate(rng.fork("tree", variant), depth=2, outside_links=True, tag="c13-%d" % variant, root_index=ri, root_404=r4)
+        # files well above any "read it at once" threshold, one of them reached through a link
+        t.add_file("/media/big.bin", rng.bytes(150000))
+        t.add_file("/media/huge.bin", rng.bytes(1 << 20))
+        t.add_link("/media/big-link.bin", "big.bin")
         if not r4:
             c.seen("tree without 404.html / index.html")
         campaign(c, rng, t)
+
+
+def broken_stdout(c, t, rng):
+    """fault injection on the log channel: stdout is a pipe whose reader goes away after start-up, or /dev/full"""
+    import subprocess, time, socket
+    binary = build.binary("rel")
+    served = sorted(k for k in t.files if len(t.files[k]) > 50)[0]
+    for mode in ("closed-pipe", "dev-full"):
+        port = server.free_port()
+        env = {k: v for k, v in os.environ.items() if not k.startswith("RWS_CONFIG_")}
+        full = None
+        if mode == "closed-pipe":
+            p = subprocess.Popen([binary, "--ip=127.0.0.1", "--port=%d" % port, "--thread-count=2"], cwd=t.root, env=env, stdout=subprocess.PIPE, stderr=subprocess.DEVNULL, stdin=subprocess.DEVNULL)
+            buf = b""
+            t0 = time.time()
+            while b"Spawned" not in buf and time.time() - t0 < 10 and p.poll() is None:
+                ch = os.read(p.stdout.fileno(), 65536)
+                if not ch:
+                    break
+                buf += ch
+            p.stdout.close()
+        else:
+            full = open("/dev/full", "wb")
+            p = subprocess.Popen([binary, "--ip=127.0.0.1", "--port=%d" % port, "--thread-count=2"], cwd=t.root, env=env, stdout=full, stderr=subprocess.DEVNULL, stdin=subprocess.DEVNULL)
+            time.sleep(0.5)
+        try:
+            for i in range(6):
+                try:
+                    s = socket.create_connection(("127.0.0.1", port), timeout=3)
+                    s.sendall(("GET %s HTTP/1.1\r\nHost: x\r\n\r\n" % (served if i % 2 else "/missing")).encode())
+                    s.settimeout(3)
+                    while s.recv(65536):
+                        pass
+                    s.close()
+                except OSError:
+                    pass
+                c.ev()
+            c.cls("broken-stdout", mode)
+            c.count("requests sent to a server with a failing stdout (%s)" % mode, 6)
+        finally:
+            try:
+                p.kill()
+                p.wait(timeout=5)
+            except Exception:
+                pass
+            if full:
+                full.close()
 
 
 def campaign(c, rng, t):
@@ -128,6 +185,7 @@ def campaign(c, rng, t):
                   c.extra["strace_mutating_syscalls"] = len(bad)
               finally:
                   srv.cleanup()
+          broken_stdout(c, t, rng)
           d = fsmon.diff(before, fsmon.manifest(t.base))
           for kind, p, a, b in d:
               c.violation("C13:manifest:%s:%s" % (kind.split(" ")[0], "inside-root" if p.startswith("outer2/outer1/root") else "outside-root"), "after the real-binary campaign: %s %s (before %r, after %r)" % (kind, p, a, b), {"path": p})
